@@ -97,6 +97,10 @@ def watermark_regressions(f, g, rd, loops):
         if isinstance(par, ast.If) and v in {x.id for x in ast.walk(par.test) if isinstance(x, ast.Name)} and isinstance(par.test, ast.Compare) \
             and any(n.ast is st_ for st_ in par.body) and 'is None' not in norm(par.test):
           monotone = True
+        # first assignment of the marker: `if v is None: v = elem.attr` (nothing covered yet)
+        if isinstance(par, ast.If) and ((norm(par.test) == '%s is None' % v and any(n.ast is st_ for st_ in par.body))
+                                        or (norm(par.test) == '%s is not None' % v and any(n.ast is st_ for st_ in par.orelse))):
+          monotone = True
       if not monotone:
         out.append((loop, v, n))
   return out
